@@ -40,6 +40,7 @@ type Op struct {
 	Rest       int              `json:"rest,omitempty"`
 	OpenErr    string           `json:"open_err,omitempty"`
 	SrcBack    int              `json:"src_back,omitempty"` // reader path: take the bytes written by the op this many steps back
+	UseKept    bool             `json:"use_kept,omitempty"` // use the IniParser created by an earlier "newini" op
 
 	// parse
 	Argv      []BStr             `json:"argv,omitempty"`
@@ -59,6 +60,10 @@ type CalleeFault struct {
 	Kind string `json:"kind"` // callback unmarshal validate execute handler unknown
 	Nth  int    `json:"nth"`  // 0-based index among calls of this kind within one boot
 	ID   int    `json:"id"`
+	// Form of the error value the callee returns: "" = a plain harness error;
+	// "flags:<type>" = a *flags.Error of that type; "wrap:<type>" = an error
+	// wrapping such a *flags.Error with %w.
+	Form string `json:"form,omitempty"`
 }
 
 type Scenario struct {
@@ -144,7 +149,7 @@ type RunCtx struct {
 	out    *Outcome
 	calls  []Call
 	counts map[string]int
-	errs   map[int]*InjectedErr
+	errs   map[int]error
 	nextID int
 }
 
@@ -170,6 +175,20 @@ func (c *RunCtx) newInjected(what string) error {
 	return e
 }
 
+var flagsErrTypes = map[string]flags.ErrorType{"help": flags.ErrHelp, "required": flags.ErrRequired, "unknown": flags.ErrUnknown, "marshal": flags.ErrMarshal, "command required": flags.ErrCommandRequired}
+
+func makeInjected(id int, form string) error {
+	parts := strings.SplitN(form, ":", 2)
+	if len(parts) == 2 {
+		fe := &flags.Error{Type: flagsErrTypes[parts[1]], Message: fmt.Sprintf("injected flags error #%d", id)}
+		if parts[0] == "wrap" {
+			return fmt.Errorf("command failed (#%d): %w", id, fe)
+		}
+		return fe
+	}
+	return &InjectedErr{ID: id}
+}
+
 // callee records one call out of the library into the embedding program and
 // applies the callee fault plan.
 func (c *RunCtx) callee(kind, who string, args []string) error {
@@ -181,7 +200,7 @@ func (c *RunCtx) callee(kind, who string, args []string) error {
 		if f.Kind == kind && f.Nth == n {
 			e, ok := c.errs[f.ID]
 			if !ok {
-				e = &InjectedErr{ID: f.ID}
+				e = makeInjected(f.ID, f.Form)
 				c.errs[f.ID] = e
 			}
 			call.Fail = f.ID
@@ -224,7 +243,7 @@ func opBudget(op *Op) int64 {
 // (scenario, schedule, code).
 func Execute(sc *Scenario, sched *simrt.Schedule) (out *Outcome) {
 	out = &Outcome{}
-	ctx := &RunCtx{sc: sc, out: out, counts: map[string]int{}, errs: map[int]*InjectedErr{}}
+	ctx := &RunCtx{sc: sc, out: out, counts: map[string]int{}, errs: map[int]error{}}
 	prev := cur
 	cur = ctx
 	w := simrt.NewWorld()
@@ -339,6 +358,20 @@ func classifyErr(err error, res *OpResult) {
 	if err == nil {
 		return
 	}
+	// is it, by identity, an error value a callee was made to return?
+	if cur != nil {
+		for id, inj := range cur.errs {
+			if err == inj {
+				res.Err = "injected"
+				res.Injected = id
+				res.Msg = BStr(err.Error())
+				if fe, ok := err.(*flags.Error); ok && fe != nil {
+					res.ErrType = fe.Type.String()
+				}
+				return
+			}
+		}
+	}
 	switch e := err.(type) {
 	case *flags.Error:
 		res.Err = "flags.Error"
@@ -400,8 +433,15 @@ func runOp(w *simrt.World, b *Built, op *Op, res *OpResult) {
 		res.Rest = bstrs(rest)
 		res.FaultsFired = w.Fd1.Fired + w.Fd2.Fired
 		w.Fd1.Faults, w.Fd2.Faults = nil, nil
+	case "newini":
+		b.KeptIni = flags.NewIniParser(b.P)
+	case "setopts":
+		b.P.Options = flags.Options(op.IniOpts)
 	case "iniread":
 		ip := flags.NewIniParser(b.P)
+		if op.UseKept && b.KeptIni != nil {
+			ip = b.KeptIni
+		}
 		ip.ParseAsDefaults = op.AsDefaults
 		var err error
 		if op.File == "" {
